@@ -1,5 +1,57 @@
-(* C11 -- placeholder until Proofs/C11.v lands. *)
-From GV Require Import Base.Prelude Model.C11.
-Theorem C11_at_state : forall nlab i j k, i <> -1 -> name_of nlab i j k = At i.
-Proof. intros. unfold name_of. destruct (Z.eqb_spec i (-1)); [contradiction|reflexivity]. Qed.
-Print Assumptions C11_at_state.
+(* C11 -- property theorems only. *)
+From Coq Require Import Permutation Sorted.
+From GV Require Import Base.Prelude Model.C03 Model.C11 Proofs.C11.
+
+(* every (frame, diffusing atom, other atom) pair is counted in exactly one state, species and distance bin *)
+Theorem C11_count_partition : forall ps (names : list sname) (syms bins : list Z),
+  NoDup names -> NoDup syms -> NoDup bins ->
+  (forall p, In p ps -> In (p_name p) names /\ In (p_sym p) syms /\ In (p_bin p) bins) ->
+  zsum (map (fun k => count_key ps (fst (fst k)) (snd (fst k)) (snd k)) (list_prod (list_prod names syms) bins))
+  = Z.of_nat (length ps).
+Proof. exact count_partition. Qed.
+Print Assumptions C11_count_partition.
+Theorem C11_pairs_length : forall nlab labels hists symbols edges2 dists,
+  (forall fr, In fr dists -> length fr = length hists) ->
+  (forall fr row, In fr dists -> In row fr -> length row = length symbols) ->
+  length (pairs_of nlab labels hists symbols edges2 dists) = (length dists * length hists * length symbols)%nat.
+Proof. exact pairs_length. Qed.
+Print Assumptions C11_pairs_length.
+
+(* distance bins: edges[k-1] < d <= edges[k] *)
+Theorem C11_bin_right_spec : forall edges2 d2,
+  StronglySorted (fun a b => rle a b = true) edges2 -> (forall e, In e edges2 -> 0 < snd e) -> 0 < snd d2 ->
+  forall i e, nth_error edges2 i = Some e ->
+  (Z.of_nat i < bin_right edges2 d2 -> rlt e d2 = true) /\ (bin_right edges2 d2 <= Z.of_nat i -> rle d2 e = true).
+Proof. exact bin_right_spec. Qed.
+Print Assumptions C11_bin_right_spec.
+
+(* the integer state code separates the (state, previous, next) label triples *)
+Theorem C11_code_injective : forall i j k i' j' k', -1 <= i < 1000 -> -1 <= j < 999 -> -1 <= k < 999 ->
+  -1 <= i' < 1000 -> -1 <= j' < 999 -> -1 <= k' < 999 -> code i j k = code i' j' k' -> i = i' /\ j = j' /\ k = k'.
+Proof. exact code_injective. Qed.
+Print Assumptions C11_code_injective.
+
+(* 'at site X' states contain only frames in which the atom is at a site labelled X *)
+Theorem C11_at_state_sound : forall nlab labels hist t x,
+  nth_error (names_of_atom nlab labels hist) t = Some (At x) ->
+  exists s, nth_error hist t = Some s /\ 0 <= s /\ lab_of labels s = x /\ x <> -1.
+Proof. exact at_atom_sound. Qed.
+Print Assumptions C11_at_state_sound.
+(* 'X->Y' states contain only frames between leaving an X site and reaching a Y site *)
+Theorem C11_transit_state_sound : forall nlab i j k x y,
+  name_of nlab i j k = Transit x y <-> (i = -1 /\ j = x /\ k = y /\ x <> -1 /\ y <> -1).
+Proof. exact transit_state_sound. Qed.
+Print Assumptions C11_transit_state_sound.
+
+(* raw species-pair counts depend only on the multiset of distances, hence are symmetric in the two species *)
+Theorem C11_hist_counts_perm : forall edges2 ds ds' k, Permutation ds ds' -> hist_counts edges2 ds k = hist_counts edges2 ds' k.
+Proof. exact hist_counts_perm. Qed.
+Print Assumptions C11_hist_counts_perm.
+Theorem C11_hist_counts_transpose : forall edges2 n (m : list (list (Z * Z))) k,
+  (forall r, In r m -> length r = n) -> hist_counts edges2 (concat m) k = hist_counts edges2 (concat (transpose n m)) k.
+Proof. first [exact hist_counts_transpose | intros; eapply hist_counts_transpose; eauto]. Qed.
+Print Assumptions C11_hist_counts_transpose.
+Theorem C11_hist_total : forall edges2 ds,
+  zsum (map (hist_counts edges2 ds) (zrange 0 (length edges2 - 1))) + hist_counts edges2 ds (-1) = Z.of_nat (length ds).
+Proof. exact hist_total. Qed.
+Print Assumptions C11_hist_total.
